@@ -180,7 +180,8 @@ func groupSet(n int) []*refEntry {
 	if n == 0 {
 		return []*refEntry{{DN: gdn("admin"), Attrs: []codec.Attr{{Type: "member", Vals: []string{udn("alice")}}, {Type: "name", Vals: []string{"admin"}}}}}
 	}
-	return []*refEntry{{DN: gdn("admin"), Attrs: []codec.Attr{{Type: "name", Vals: []string{"admin"}}}}, {DN: gdn("dev"), Attrs: []codec.Attr{{Type: "name", Vals: []string{"dev"}}}}}
+	// the second group carries a password attribute: a group entry is not a bind identity all the same
+	return []*refEntry{{DN: gdn("admin"), Attrs: []codec.Attr{{Type: "name", Vals: []string{"admin"}}}}, {DN: gdn("dev"), Attrs: []codec.Attr{{Type: "name", Vals: []string{"dev"}}, {Type: "password", Vals: []string{"grp-pw"}}}}}
 }
 
 func toEntries(es []*refEntry) []*gldap.Entry {
@@ -555,8 +556,11 @@ func (e *dirEnv) probe(c *Ctx, s *refStore) [][3]string {
 		check("group base + filter", dn, want, ents, code)
 	}
 	// binds
-	for _, dn := range append(append([]string{}, poolUsers...), "", udn("nobody"), strings.ToUpper(udn("bob")), udn("nopw"), udn("zerovals"), udn("emptystr")) {
+	for _, dn := range append(append([]string{}, poolUsers...), "", udn("nobody"), strings.ToUpper(udn("bob")), udn("nopw"), udn("zerovals"), udn("emptystr"), gdn("dev")) {
 		pws := []string{"", "wrong"}
+		if strings.HasPrefix(dn, "cn=dev,") {
+			pws = append(pws, "grp-pw")
+		}
 		if i := s.findUser(dn); i >= 0 {
 			if ai := firstAttr(s.Users[i], "password"); ai >= 0 && len(s.Users[i].Attrs[ai].Vals) > 0 {
 				pws = append(pws, s.Users[i].Attrs[ai].Vals...)
